@@ -227,19 +227,18 @@ class NoOp(Opcode):
 
 
 def raw_unicode_escape(byte_string: bytes) -> str:
+    # The UNICODE opcode is read back with the raw-unicode-escape codec up to the next newline:
+    # only \uXXXX and \UXXXXXXXX escapes are decoded, and each escape is one code point
     s = []
-    for b in byte_string:
-        if 32 <= b <= 128:
+    for char in byte_string.decode("utf-8"):
+        code_point = ord(char)
+        if 32 <= code_point < 127 and char != "\\":
             # this is printable ASCII
-            s.append(chr(b))
-        elif b == ord("\n"):
-            s.append("\\n")
-        elif b == ord("\r"):
-            s.append("\\r")
-        elif b == ord("\\"):
-            s.append("\\\\")
+            s.append(char)
+        elif code_point <= 0xFFFF:
+            s.append(f"\\u{code_point:04x}")
         else:
-            s.append(f"\\u{b:04x}")
+            s.append(f"\\U{code_point:08x}")
     s.append("\n")
     return "".join(s)
 
